@@ -30,6 +30,9 @@ const (
 	gDecl            // zN := x; r += zN          (block-scoped declaration)
 	gIIFE            // r += func(p) { return p + y }(x)
 	gClosure         // hN := func() { y += 1 }; hN()
+	gIIFE3           // r = func() { return x + y + r }()     (closure capturing three variables)
+	gEscape          // eN := x; esc = func() { return eN }   (block-local captured by a closure that outlives the block)
+	gRec             // recN := func(n) { ... recN(n-1) }; r += recN(2)   (self-recursive local function)
 	gBreak           // break      (only inside a loop of the same function)
 	gContinue        // continue
 	gReturn          // return r   (only inside a function)
@@ -236,6 +239,14 @@ func (g *grender) stmt(n *gnode) string {
 	case gClosure:
 		u := g.id()
 		return "h" + u + " := func() { y += 1 }" + g.s() + "h" + u + "()"
+	case gIIFE3:
+		return "r = func() { return x + y + r }()"
+	case gEscape:
+		u := g.id()
+		return "e" + u + " := x" + g.s() + "esc = func() { return e" + u + " }"
+	case gRec:
+		u := g.id()
+		return "rec" + u + " := func(n) { return n <= 0 ? 0 : rec" + u + "(n-1) }" + g.s() + "r += rec" + u + "(2)"
 	case gBreak, gBreakBad:
 		return "break"
 	case gContinue:
@@ -296,16 +307,19 @@ func gctxOf(k int) gctx {
 
 // genWrap places a rendered body into a context. The observed result is the
 // global `out` = [x, y, r, m.k] (GTop: the globals x, y, r, m themselves too).
+const genPre = "r := 0; m := {k: 0}; esc := undefined; "
+const genRes = "[x, y, r, m.k, is_undefined(esc) ? -1 : esc()]"
+
 func genWrap(body string, k int) string {
 	switch k {
 	case GTop:
-		return "x := a; y := b; r := 0; m := {k: 0}; " + body + "; out := [x, y, r, m.k]"
+		return "x := a; y := b; " + genPre + body + "; out := " + genRes
 	case GFunc:
-		return "f := func(x, y) { r := 0; m := {k: 0}; " + body + "; return [x, y, r, m.k] }; out := f(a, b)"
+		return "f := func(x, y) { " + genPre + body + "; return " + genRes + " }; out := f(a, b)"
 	case GClosure:
-		return "f := func(x) { y := b; r := 0; m := {k: 0}; g := func() { " + body + "; return 1 }; t := g(); return [x, y, r, m.k, t] }; out := f(a)"
+		return "f := func(x) { y := b; " + genPre + "g := func() { " + body + "; return 1 }; t := g(); return " + genRes + " + [t] }; out := f(a)"
 	case GLoopFunc:
-		return "f := func(x, y) { r := 0; m := {k: 0}; for w := 0; w < 2; w++ { " + body + " }; return [x, y, r, m.k] }; out := f(a, b)"
+		return "f := func(x, y) { " + genPre + "for w := 0; w < 2; w++ { " + body + " }; return " + genRes + " }; out := f(a, b)"
 	}
 	panic("gen: unknown context")
 }
@@ -350,6 +364,28 @@ func nested3(c gctx) []string {
 	return out
 }
 
+// siblings: two sibling blocks W(A); W'(B) where A lets a block-local escape
+// in a closure and B declares something in the next block (which re-uses the
+// slot of A's variable when the variables are locals).
+func siblings(c gctx) []string {
+	var out []string
+	for w := wIf; w < wEnd; w++ {
+		if w == wIfElse {
+			continue
+		}
+		for w2 := wIf; w2 < wEnd; w2++ {
+			if w2 == wIfElse {
+				continue
+			}
+			for _, b := range []int{gRec, gDecl, gClosure, gIIFE3, gEscape, gAddR} {
+				g := &grender{}
+				out = append(out, g.seq([]*gnode{{kind: w, bodies: [][]*gnode{{{kind: gEscape}}}}, {kind: w2, bodies: [][]*gnode{{{kind: b}}}}}))
+			}
+		}
+	}
+	return out
+}
+
 func genFamily(maxFull int, nestedCtxs []int) []GenProg {
 	var out []GenProg
 	add := func(k int, body string) {
@@ -364,6 +400,11 @@ func genFamily(maxFull int, nestedCtxs []int) []GenProg {
 	}
 	for _, k := range nestedCtxs {
 		for _, b := range nested3(gctxOf(k)) {
+			add(k, b)
+		}
+	}
+	for _, k := range []int{GTop, GFunc, GClosure} {
+		for _, b := range siblings(gctxOf(k)) {
 			add(k, b)
 		}
 	}
@@ -393,6 +434,7 @@ func genRelocatable(maxN int, withNested bool) []string {
 	if withNested {
 		out = append(out, nested3(gctx{})...)
 	}
+	out = append(out, siblings(gctx{})...)
 	return out
 }
 
@@ -471,16 +513,18 @@ func nodeWithOneFail(n *gnode, fk int) []*gnode {
 	return out
 }
 
+const genPreL = "r := 0\nm := {k: 0}\nesc := undefined\n"
+
 func genFailWrap(body string, k int) (src string, outer []string) {
 	switch k {
 	case GTop:
-		return "x := a\ny := b\nr := 0\nm := {k: 0}\n" + body + "\nout := [x, y, r, m.k]", nil
+		return "x := a\ny := b\n" + genPreL + body + "\nout := " + genRes, nil
 	case GFunc:
-		return "f := func(x, y) {\nr := 0\nm := {k: 0}\n" + body + "\nreturn [x, y, r, m.k]\n}\nout := f(a, b)", []string{"out := f(a, b)"}
+		return "f := func(x, y) {\n" + genPreL + body + "\nreturn " + genRes + "\n}\nout := f(a, b)", []string{"out := f(a, b)"}
 	case GClosure:
-		return "f := func(x) {\ny := b\nr := 0\nm := {k: 0}\ng := func() {\n" + body + "\nreturn 1\n}\nt := g()\nreturn [x, y, r, m.k, t]\n}\nout := f(a)", []string{"t := g()", "out := f(a)"}
+		return "f := func(x) {\ny := b\n" + genPreL + "g := func() {\n" + body + "\nreturn 1\n}\nt := g()\nreturn " + genRes + " + [t]\n}\nout := f(a)", []string{"t := g()", "out := f(a)"}
 	case GLoopFunc:
-		return "f := func(x, y) {\nr := 0\nm := {k: 0}\nfor w := 0; w < 2; w++ {\n" + body + "\n}\nreturn [x, y, r, m.k]\n}\nout := f(a, b)", []string{"out := f(a, b)"}
+		return "f := func(x, y) {\n" + genPreL + "for w := 0; w < 2; w++ {\n" + body + "\n}\nreturn " + genRes + "\n}\nout := f(a, b)", []string{"out := f(a, b)"}
 	}
 	panic("gen: unknown context")
 }
